@@ -193,13 +193,18 @@ def consume(I):
     call_method(I, o, "consume_stream_datum", doc)
     rp = {"replay": "consolidators.consume"}
     w.check(f"{QB}.consume_stream_datum#ensures[rows' = rows + (stop - start)]", Eq(o._num_rows, rows + (i1 - i0)), rp)
+    if len(updates) == 1 and isinstance(updates[0], tuple) and updates[0][:1] == ("zip",):
+        updates[0] = SymZipDict(updates[0][1], updates[0][2])       # update(zip(...)) is update(dict(zip(...)))
     ok = (len(updates) == 1 and isinstance(updates[0], SymZipDict) and isinstance(updates[0].keys, SymRange)
           and isinstance(updates[0].vals, SymRange))
     cond = ok
     if ok:
         u = updates[0]
         # dict(zip(range(ka,kb), range(va,vb))): key ka+k -> va+k ; must be seq_start+k -> idx_start+k for all consumed k
-        cond = And(Eq(u.keys.a, s0), Eq(u.keys.b, s1), Eq(u.vals.a, i0), Eq(u.vals.b, i1))
+        # (zip pairs min(len, len) items; an empty datum maps nothing whatever the end points are)
+        nk, nv, n = u.keys.b - u.keys.a, u.vals.b - u.vals.a, i1 - i0
+        nk, nv = ite(nk < 0, 0, nk), ite(nv < 0, 0, nv)
+        cond = And(Eq(ite(nk < nv, nk, nv), n), Implies(n > 0, And(Eq(u.keys.a, s0), Eq(u.vals.a, i0))))
     w.check(f"{QB}.consume_stream_datum#ensures[every consumed seq_num mapped to its row index]", cond, rp)
     w.check(f"{QB}.consume_stream_datum#frame[map object kept, only updated]", o._seqnums_to_indices_map is smap, rp)
 
